@@ -53,7 +53,7 @@ def gen_unit(rng):
     for i in range(nsel):
         r = rng.random()
         if r < 0.25:
-            e = ("path", 0, (("k", rng.choice(("i", "b", "s"))),)) if cur.dot == "rec" else ("call", "size", (("path", 0, ()),))  # collapses inputs before --unique
+            e = ("path", 0, (("k", rng.choice(("i", "b", "s", "tw"))),)) if cur.dot == "rec" else ("call", "size", (("path", 0, ()),))  # collapses inputs before --unique
         else:
             e = g.gen(rng.choice(("num", "str", "bool", "any", "arr:num", "int")), cur)
         u["selects"].append(("c%d" % i, e))
